@@ -272,6 +272,10 @@ func caseC07(c *Ctx) {
 
 // C11: entity events.
 func caseC11(c *Ctx) {
+	if c.Mode == "nested" {
+		caseNested(c, false)
+		return
+	}
 	cfg := GenCfg(c.R, 0)
 	p := DefaultProfile()
 	p.Steps = 170
